@@ -280,10 +280,12 @@ class ZukoFlow(BaseTorchFlow):
 
     def log_prob(self, x, xp=torch_api):
         x = torch.as_tensor(x, dtype=self.dtype, device=self.device)
-        x_prime, log_abs_det_jacobian = self.rescale(x)
-        return xp.asarray(
-            self._flow().log_prob(x_prime) + log_abs_det_jacobian
-        )
+        # As in sample_and_log_prob: evaluation only, so that the result is
+        # not attached to the autograd graph and converts to any namespace
+        with torch.no_grad():
+            x_prime, log_abs_det_jacobian = self.rescale(x)
+            log_prob = self._flow().log_prob(x_prime) + log_abs_det_jacobian
+        return xp.asarray(log_prob)
 
     def forward(self, x, xp=torch_api):
         x = torch.as_tensor(x, dtype=self.dtype, device=self.device)
